@@ -40,6 +40,10 @@ def form_jobs(tier):
             if not any(bits):
                 continue      # the all-operator spelling is C01's universe
             yield {'mods': mods, 'inputs': 'abA:4', 'mode': 'simple', 'tag': 'forms', 'alt': bits}
+    # (a3') multi-digit bounds
+    for j in c03.big_bound_jobs():
+        j['tag'] = 'forms-rep-big'          # both spellings: e{m,n} and List(e, min_len=m, max_len=n)
+        yield j
     # (a3) repetition bounds and separated lists
     for el in c03.ELEMS[:3]:
         for core in c03.static_reps(el, 3):
